@@ -87,7 +87,7 @@ def build_type(atom):
     listed = tuple(build_type(sub) for sub in atom[1])
     if atom[2]:
         listed = listed + (...,)
-    return Concurrent[listed if len(listed) > 1 else listed[0]]
+    return Concurrent[listed if len(listed) != 1 else listed[0]]
 
 
 def build_instance(atom):
@@ -126,7 +126,9 @@ def leaves_of(atom):
 
 def raised_space(tier):
     space = atoms(tier)
-    for size in (1, 2, 3):
+    # (also the empty multiset: a failure without any children is matched by handlers that
+    # list nothing - bare, `...`, `Concurrent[()]` - and by no other)
+    for size in (0, 1, 2, 3):
         yield from itertools.product(space, repeat=size)
 
 
@@ -134,6 +136,7 @@ def handler_space(tier):
     space = atoms(tier)
     yield ('bare', (), True)
     yield ('ellipsis', (), True)
+    yield ('spec', (), False)       # Concurrent[()]: lists nothing and allows nothing
     for size in (1, 2, 3):
         for listed in itertools.combinations(space, size):
             yield ('spec', listed, False)
@@ -165,7 +168,7 @@ def handler_class(handler, ellipsis_at=None):
         # spelled, it is the same class (the trailing position is merely the documented one)
         at = len(items) if ellipsis_at is None else ellipsis_at % (len(items) + 1)
         items = items[:at] + (...,) + items[at:]
-    return Concurrent[items if len(items) > 1 else items[0]]
+    return Concurrent[items if len(items) != 1 else items[0]]
 
 
 def describe(atom):
@@ -188,13 +191,15 @@ def run_case(case):
     raised_text = 'Concurrent(%s)' % ', '.join(describe(a) + '()' for a in raised)
     # ---- the type depends only on the set of child types ----
     for perm in itertools.permutations(raised):
-        other = build_instance(('C', perm + (perm[0],), False))
+        other = build_instance(('C', perm + perm[:1], False))
         stats['type_identity_checks'] += 1
         if type(other) is not type(exc):
             violations.append({'mechanism': 'c17:type-depends-on-order-or-multiplicity',
                                'msg': 'type(%s) is not type of the same children reordered / '
                                       'repeated' % raised_text})
-    expected_type = build_type(('C', tuple(sorted(set(raised), key=describe)), False))
+    # (the type of a failure without children is the base class itself)
+    expected_type = build_type(('C', tuple(sorted(set(raised), key=describe)), False)) \
+        if raised else Concurrent
     stats['type_identity_checks'] += 1
     if type(exc) is not expected_type:
         violations.append({'mechanism': 'c17:specialisation-not-identical',
@@ -205,7 +210,7 @@ def run_case(case):
     made_elsewhere = []
     spec = ('C', tuple(sorted(set(raised), key=describe)), False)
     worker = threading.Thread(target=lambda: made_elsewhere.extend(
-        [build_instance(('C', raised, False)), build_type(spec)]))
+        [build_instance(('C', raised, False)), build_type(spec) if raised else Concurrent]))
     worker.start()
     worker.join()
     stats['type_identity_checks'] += 2
@@ -233,7 +238,7 @@ def run_case(case):
     # is still alive keeps its class: asking for the same specialisation again gives that class)
     if case['index'] % 40 == 0:
         crowd = [Concurrent[type('Crowd%d' % number, (Exception,), {})] for number in range(700)]
-        again = build_type(spec)
+        again = build_type(spec) if raised else Concurrent
         stats['type_identity_checks'] += 1
         stats['specialisations_in_between'] = stats.get('specialisations_in_between', 0) + len(crowd)
         if again is not type(exc):
@@ -339,8 +344,14 @@ def run_case(case):
             'Concurrent' if kind == 'bare' else 'Concurrent[...]')
         if len(set(raised)) >= 2 or any(atom[0] == 'C' for atom in raised):
             sigs.append('%s|%s' % (raised_text, text))
-        got_instance = isinstance(exc, cls)
-        got_subclass = issubclass(type(exc), cls)
+        try:
+            got_instance = isinstance(exc, cls)
+            got_subclass = issubclass(type(exc), cls)
+        except Exception as err:  # noqa: B902
+            violations.append({'mechanism': 'c17:isinstance',
+                               'msg': 'isinstance / issubclass of %s and %s raises %r' % (
+                                   raised_text, text, err)})
+            continue
         stats['except_evaluations'] += 1
         try:
             raise exc
